@@ -67,6 +67,7 @@ K_TINJ = 'drawdown:injection-temperature-above-bottom-hole-temperature'
 K_DEPTH = 'bht:reservoir-depth-omitted'
 K_COUNT = 'redrill-count:cycle-divides-series-length'
 K_NEG = 'floor:negative-initial-production-temperature'
+K_STALE = 'redrill-count:stale-after-district-heating-second-pass'
 
 
 def _kernel(ctx, name, req, run, tol, cases, shard=200):
@@ -255,7 +256,8 @@ def part_history(ctx):
         for maxdd, drop, T, exact in history_cases(ctx, n, per):
             w = m.wellbores
             m.reserv.Tresoutput.value = np.array([float(x) for x in T])
-            w.maxdrawdown.value, w.tempdropprod.value, w.redrill.value = float(maxdd), float(drop), 0
+            prev = ctx.rng.choice([0, 0, 0, 1, 3])          # count left on the object by an earlier call (district heating calls twice)
+            w.maxdrawdown.value, w.tempdropprod.value, w.redrill.value = float(maxdd), float(drop), prev
             try:
                 w.Calculate(m)
             except Exception:  # noqa: BLE001 - later stages may reject odd temperatures; the step under test ran before
@@ -265,10 +267,10 @@ def part_history(ctx):
             if min(abs(x - drop - lim) for x in T[1:] or [lim + 1]) <= TOL * max(1, abs(lim)):   # decision within tolerance of its threshold
                 amb += 1
                 continue
-            flat.append(([maxdd, F(n)] + [x - drop for x in T] + T, ('V', P + Tn + [F(int(w.redrill.value))])))
+            flat.append(([maxdd, F(n), F(prev)] + [x - drop for x in T] + T, ('V', P + Tn + [F(int(w.redrill.value))])))
             idx = next((j for j, x in enumerate(T) if x - drop < lim), 0)
             keys.append((n, idx))
-            meta.append({'n': n, 'maxdrawdown': str(maxdd), 'drop': str(drop), 'Tres': [str(x) for x in T], 'first_below': idx})
+            meta.append({'n': n, 'maxdrawdown': str(maxdd), 'drop': str(drop), 'Tres': [str(x) for x in T], 'first_below': idx, 'prev': prev})
     failing = _kernel(ctx, 'redrill-direct', ['Model.Redrill'], 'run_redrill', TOL, flat, 100)
     ctx.count('redrill-direct', evaluations=len(flat), nontrivial_keys=keys, boundary_ambiguous={'skipped': amb},
               redrilled={'yes': sum(1 for _, k in keys if k > 0), 'no': sum(1 for _, k in keys if k == 0)})
@@ -426,11 +428,12 @@ def part_runs(ctx, inputs):
         T, P = [F(x) for x in S.v('reserv', 'Tresoutput')], [F(x) for x in S.v('wellbores', 'ProducedTemperature')]
         n, red = len(T), int(S.v('wellbores', 'redrill'))
         Tinj, maxdd = F(S.v('wellbores', 'Tinj')), F(S.v('wellbores', 'maxdrawdown'))
+        dh = S.enum_name('surfaceplant', 'plant_type') == 'DISTRICT_HEATING'
         if len(P) != n:
             ctx.violate('property', f'length:model={m}', f'{name}: ProducedTemperature has {len(P)} entries, Tresoutput {n}', inp=ref)
             continue
         orc.append(([F(1 if m in (3, 4) else 2 if m == 2 else 0), OTOL, maxdd, Trock, Tinj, F(red), F(n)] + T + P, ('V', [F(1)] * 6), ref,
-                    {'m': m, 'tinj_above': Tinj > Trock, 'p0_neg': P[0] < 0, 'n': n, 'r': red}))
+                    {'m': m, 'tinj_above': Tinj > Trock, 'p0_neg': P[0] < 0, 'n': n, 'r': red, 'dh': dh}))
         ramey = bool(S.v('wellbores', 'rameyoptionprod'))
         sigs.append((m, int(S.v('reserv', 'numseg')), bool(flat) and depth < flat[4] * 1000 * (1 - TOL), red > 0, ramey))
         if m in (3, 4):
@@ -455,7 +458,9 @@ def part_runs(ctx, inputs):
             if min(abs(x - lim) for x in Ppre[1:first + 1] or [lim + 1]) <= TOL * max(1, abs(lim)):
                 amb += 1
             else:
-                dd.append(([F(m), Trock, Tinj, dp, maxdd, life, F(n), cpw, k_, rho, cpr] + dflat + extra,
+                # district heating calls WellBores.Calculate twice: the count of the first call (not observable) persists when the
+                # second does not redrill, so the model is given the reported count as the one left behind
+                dd.append(([F(m), Trock, Tinj, dp, maxdd, life, F(n), cpw, k_, rho, cpr, F(red if dh else 0)] + dflat + extra,
                            ('V', T + P + [F(red)] + tail), ref, m))
             tvs[(life, n)] = tv
         # --- report lines (observe_at): what is printed is what was computed
@@ -510,6 +515,11 @@ def part_runs(ctx, inputs):
     bad = _kernel(ctx, 'oracle-clauses', ['Model.Redrill'], 'run_oracle', F(0),
                   [([F(cl)] + orc[i][0][1:], ('V', [F(1)])) for i, cl in pairs], 8)
     broken = {pairs[j] for j in bad}
+    # district heating: does the series look exactly like one that was never redrilled (all clauses hold with a count of 0)?
+    stale = [i for i in sorted({i for i, cl in broken if cl in (3, 4)}) if orc[i][3]['dh'] and orc[i][3]['r'] > 0]
+    not_stale = _kernel(ctx, 'oracle-stale', ['Model.Redrill'], 'run_oracle_all', F(0),
+                        [(orc[i][0][:5] + [F(0)] + orc[i][0][6:], orc[i][1]) for i in stale], 8)
+    stale = {i for j, i in enumerate(stale) if j not in not_stale}
     for i, cl in sorted(broken):
         a, _, ref, info = orc[i]
         key = f'{CLAUSES[cl]}:model={info["m"]}'
@@ -519,6 +529,8 @@ def part_runs(ctx, inputs):
             key = K_NEG
         if cl == 4 and (i, 3) not in broken:
             key = K_COUNT
+        if cl in (3, 4) and i in stale:
+            key = K_STALE
         ctx.violate('property', key, f'{ref["name"]}: clause "{CLAUSES[cl]}" of C05 fails on the series of this run (reservoir model '
                     f'{info["m"]}, {info["n"]} steps, {info["r"]} redrillings reported)', inp=ref,
                     observed={'Tres': [float(x) for x in a[7:7 + info['n']]][:40], 'P': [float(x) for x in a[7 + info['n']:]][:40]})
@@ -601,7 +613,7 @@ def replay(ctx, data):
         m.reserv.Calculate(m)
         T, drop, maxdd = [F(x) for x in c['Tres']], F(c['drop']), F(c['maxdrawdown'])
         m.reserv.Tresoutput.value = np.array([float(x) for x in T])
-        m.wellbores.maxdrawdown.value, m.wellbores.tempdropprod.value, m.wellbores.redrill.value = float(maxdd), float(drop), 0
+        m.wellbores.maxdrawdown.value, m.wellbores.tempdropprod.value, m.wellbores.redrill.value = float(maxdd), float(drop), c.get('prev', 0)
         try:
             m.wellbores.Calculate(m)
         except Exception:  # noqa: BLE001
@@ -609,7 +621,7 @@ def replay(ctx, data):
         P, Tn = [F(x) for x in m.wellbores.ProducedTemperature.value], [F(x) for x in m.reserv.Tresoutput.value]
         red = int(m.wellbores.redrill.value)
         bad = _kernel(ctx, 'replay', ['Model.Redrill'], 'run_redrill', TOL,
-                      [([maxdd, F(len(T))] + [x - drop for x in T] + T, ('V', P + Tn + [F(red)]))])
+                      [([maxdd, F(len(T)), F(c.get('prev', 0))] + [x - drop for x in T] + T, ('V', P + Tn + [F(red)]))])
         print('WellBores.Calculate -> redrill', red, 'ProducedTemperature', [float(x) for x in P][:40], '| model agrees:', not bad)
         lim = (1 - maxdd) * P[0]
         if P[0] >= 0 and any(x < lim - OTOL * max(1, abs(lim)) for x in P):
